@@ -80,9 +80,8 @@ Inductive err :=
 | EStruct                      (* struct.error *)
 | EUnicode                     (* UnicodeEncodeError / UnicodeDecodeError of the ascii codec *)
 | EUnderflow                   (* BufferUnderflowError *)
-| EProtocol                    (* ProtocolError: unsupported version *)
-| ENone                        (* AttributeError: None.decode(...) for a null short string *)
-| EOutside.                    (* string length < -1 on the wire: behaviour owned by C12, not modelled here *)
+| EProtocol                    (* ProtocolError: unsupported version, or a string length below -1 *)
+| ENone.                       (* AttributeError: None.decode(...) for a null short string *)
 
 Inductive result (A : Type) := Ok (a : A) | Err (e : err).
 Arguments Ok {A} _.
@@ -243,7 +242,7 @@ Definition read_short_bytes (d : list Z) : result (option (list Z) * list Z) :=
   bind (rd_i16 d) (fun nr =>
     let '(n, r) := nr in
     if n =? -1 then Ok (None, r)
-    else if n <? -1 then Err EOutside
+    else if n <? -1 then Err EProtocol                 (* "invalid ... string length" *)
     else if len r <? n then Err EUnderflow
     else Ok (Some (take (Z.to_nat n) r), drop (Z.to_nat n) r)).
 
@@ -260,7 +259,7 @@ Definition read_int_string (d : list Z) : result (option (list Z) * list Z) :=
   bind (rd_i32 d) (fun nr =>
     let '(n, r) := nr in
     if n =? -1 then Ok (None, r)
-    else if n <? -1 then Err EOutside
+    else if n <? -1 then Err EProtocol                 (* "invalid ... string length" *)
     else if len r <? n then Err EUnderflow
     else Ok (Some (take (Z.to_nat n) r), drop (Z.to_nat n) r)).
 
@@ -384,6 +383,8 @@ Definition topic_ok (t : str) : bool := forallb is_ascii t && (len t <=? 32767).
 Definition adict_ok (d : adict) : bool :=
   (len d <=? 2147483647) &&
   forallb (fun e => topic_ok (fst e) && (len (snd e) <=? 2147483647) && forallb in_i32 (snd e)) d.
+Definition ud_ok (ud : option (list Z)) : bool :=
+  match ud with None => true | Some u => len u <=? 2147483647 end.
 Definition input_ok (members : list (str * list str)) (tp : tpmap) : bool :=
   let ts := all_topics (build_md members) in
   (len ts <=? 2147483647) &&
@@ -455,7 +456,6 @@ Definition err_code (e : err) : list Z :=
   | EUnderflow => [-8]
   | EProtocol => [-9]
   | ENone => [-10]
-  | EOutside => [-98]
   end.
 
 (* op 1: what every member decodes from the leader's encoded assignment (dict printed by ascending topic) *)
